@@ -405,7 +405,8 @@ CHECKS = {
               "files): numeric header, chunk-header and sub-header fields replaced by boundary values or original+-1, "
               "chunks dropped / duplicated / moved, truncation, byte splices; tokens / lines of the text format "
               "dropped, repeated or replaced by non-numeric text and boundary numbers. Oracle inside the target: "
-              "sanitizer-clean, the call returns (result code, bool or std::exception), and on success every stored "
+              "sanitizer-clean, the call returns a result code / bool, or lets std::bad_alloc / std::length_error escape (a "
+              "declared size that cannot be allocated; any other escaping exception is a violation), and on success every stored "
               "handle designates an existing entity, every property has one element per entity and the mesh can be "
               "traversed with bottom-up incidences rebuilt. Seed corpus: the repository's test files + structure-aware "
               "seeds, format dictionaries. Inputs declaring > 10^6 entities (or > 6-digit integers in text) are "
